@@ -996,14 +996,15 @@ def known_finding(c, obs, model):
             return None
         h = len(obs) // 2
         obs, model, model_alt = obs[:h], model[:h], model[h + 1:]
-    ro, rm = _rows(c, obs), _rows(c, model)
+    if alt and model_alt == obs:
+        return SHIFT_ID if model != obs else None
+    # what remains once the $shift reading is discounted
+    ro, rm = _rows(c, obs), _rows(c, model_alt if alt else model)
     if ro is None or rm is None or len(ro) != len(rm):
         return None
     first = next((j for j in range(len(ro)) if ro[j] != rm[j]), None)
     if first is None:
         return None
-    if alt and model_alt == obs:
-        return SHIFT_ID
     if first >= 1:
         rst = [0] * len(d["doms"])
         for j, (kind, sets) in enumerate(d["stim"], 1):
@@ -1032,7 +1033,79 @@ def f7_designs():
     return out
 
 
+PRINT_ID = "C04-print-zero-flag-with-align"
+_FMT_RE = None
+
+
+def render_rtlil_format(fmt, value):
+    """the text a $print cell with this FORMAT prints for one unsigned decimal argument, read from the documented
+    grammar {width:justify padding [width] base [options] signedness}: justify < > =, padding = the literal pad
+    character; only what the observation below needs (base d, option +, u)"""
+    import re
+    out, pos = [], 0
+    for m in re.finditer(r"\{(\d+):([<>=])(.)(\d*)d(\+?)u\}|\{\{|\}\}", fmt):
+        out.append(fmt[pos:m.start()])
+        pos = m.end()
+        if m.group(0) in ("{{", "}}"):
+            out.append(m.group(0)[0])
+            continue
+        just, pad, width, plus = m.group(2), m.group(3), int(m.group(4) or 0), m.group(5)
+        sign, digits = ("+" if plus else ""), str(value)
+        fill = pad * max(0, width - len(sign) - len(digits))
+        out.append({"<": sign + digits + fill, ">": fill + sign + digits, "=": sign + fill + digits}[just])
+    out.append(fmt[pos:])
+    return "".join(out)
+
+
+def print_observation():
+    """Print(Format(spec, a)) for a grid of decimal format specs: simulator text vs the text of the emitted $print
+    FORMAT string; returns the specs on which they differ"""
+    import io, contextlib, re
+    from amaranth.hdl import Signal, Module, Print, Format
+    from amaranth.back import rtlil
+    from amaranth.sim import Simulator
+    specs = [al + z0 + "5" + sg for al in ("", "<", ">", "=", "x<", "x>", "x=", "0<", "0>") for z0 in ("", "0")
+             for sg in ("",)] + ["+5", "+05", "<+5", ""]
+
+    def mk():
+        a = Signal(8, init=42)
+        m = Module()
+        for sp in specs:
+            m.d.comb += Print(Format("[{:" + sp + "}]", a))
+        return m, a
+    m, a = mk()
+    text = rtlil.convert(m, ports=[a], emit_src=False)
+    fmts = [bytes(f, "ascii").decode("unicode_escape") for f in re.findall(r'parameter \\FORMAT "(.*)"', text)]
+    m, a = mk()
+    sim = Simulator(m)
+
+    async def tb(ctx):
+        pass
+    sim.add_testbench(tb)
+    buf = io.StringIO()
+    with contextlib.redirect_stdout(buf):
+        sim.run()
+    lines = buf.getvalue().splitlines()
+    if len(fmts) != len(specs) or len(lines) != len(specs):
+        return [("<count>", str(len(fmts)), str(len(lines)))]
+    return [(sp, render_rtlil_format(f, 42).rstrip("\n"), o) for sp, f, o in zip(specs, fmts, lines)
+            if render_rtlil_format(f, 42).rstrip("\n") != o]
+
+
 def extra(tier, seed, findings):
+    viol = []
+    diffs = print_observation()
+    if diffs:
+        listed = any(f.get("property") == ID and f.get("id") == PRINT_ID and f.get("status") == "open" for f in findings)
+        unexpected = [x for x in diffs if not (x[0] in ("<05", ">05", "=05"))]
+        payload = {"property": ID, "kind": "input", "case": {"k": "print", "specs": [x[0] for x in diffs]},
+                   "expected_by_model": [x[1] for x in diffs], "observed": [x[2] for x in diffs],
+                   "explain": "Print(Format('[{:SPEC}]', a)), a = 42: text of the emitted $print FORMAT (expected) vs simulator"}
+        if listed and not unexpected:
+            payload["known"] = (f"{PRINT_ID}: Format specs {', '.join(repr(x[0]) for x in diffs)} print "
+                                f"{[x[2] for x in diffs]} in the simulator but the emitted $print FORMAT pads with spaces "
+                                f"({[x[1] for x in diffs]})")
+        viol.append(payload)
     cases = gen_cases(tier, seed)
     comparisons = 0
     steps = 0
@@ -1046,10 +1119,11 @@ def extra(tier, seed, findings):
         steps += len(d["stim"])
     cov = {"programs": len(cases) - n_al, "disagreements_checked": comparisons, "stimulus_steps": steps,
            "assignment_list_tie_designs": n_al,
+           "print_format_specs_differing": [list(x) for x in diffs],
            "rtlil_cell_histogram": dict(CELL_HIST), "rtlil_modules": MOD_COUNT[0],
            "layer": "B = per-design translation validation (vm_compute of RtlilSem.run on the emitted text); "
                     "A = the theorems of Props/C04.v"}
-    return [], cov
+    return viol, cov
 
 
 CELL_HIST = collections.Counter()
@@ -1059,4 +1133,7 @@ MOD_COUNT = [0]
 def explain(c):
     return ("answers: per row (initial settle, then each stimulus step) a status (0) followed by the unsigned values of "
             "every design signal [and memory read data], then of every top-level output port; model = the emitted RTLIL "
-            "run by RtlilSem.run in Coq (-1 = wire undefined, -2 = wire not found), observed = real simulator")
+            "run by RtlilSem.run in Coq (-1 = wire undefined, -2 = wire not found), observed = real simulator; designs with "
+            "a part-select of a signed value answer twice (separator -6: second half = the other reading of $shift); "
+            "k=al: shapes of every emitted process (-5 after each), -9, then every emit_value result (-8 after each): "
+            "model = Gallina emit_assignment_list / emit_value on the real netlist data, observed = real emitter")
